@@ -67,6 +67,45 @@ def calls(rng):
     return pool
 
 
+def interleaved(run, rng, n):
+    """two documents alive at once: a model parsed into document A, then a whole other model (shorter, equal, longer; XTA or XML; accepted or faulty) parsed into a
+    document of its own, then a query, an expression and a per-block text parsed on document A: the later calls on A must give what they give without the other
+    document in between"""
+    import docgen
+    A_MODELS = [('xta', XTA_OK), ('xta', XTA_OK.replace('int i;', 'int i; const int N = 3;\n' + ''.join('int w%d = %d; // filler %d\n' % (k, k, k) for k in range(40)))),
+                ('xml', XML_TMPL % ('int i; clock x; const int N = 3;', '', 'x &lt;= 3', ' id="id1"', 'i == 0', 'i = 1'))]
+    OTHERS = [('xta', 'int q;\nprocess Q() { state S; init S; }\nsystem Q;\n'), ('xta', XTA_OK), ('xta', 'int q; process Q( { }\n'), ('xml', XML_TMPL % ('int i; clock x;', '', 'x &lt;= 3', ' id="id1"', 'i == 0', 'i = 1')),
+              ('xta', XTA_OK + ''.join('int z%d;\n' % k for k in range(300))), ('xml', '<nta><declaration>int q;</declaration><template><name>Q</name><location id="id0"/><init ref="id0"/></template><system>system Q;</system></nta>')]
+    LATER = [('query', 'A[] i <= 3\nE<> P.nowhere'), ('query', 'E<> i == 1'), ('expr', 'i + zz'), ('part9', 'i == ( 0'), ('part11', 'i = 2, x = 0'), ('query', 'E<> P.A && x > 1\n\nA[] undefined_name > 0')]
+    def later(j, kind, text):
+        if kind == 'query': j.query(text, rt=False)
+        elif kind == 'expr': j.expr(text)
+        else: j.part(int(kind[4:]), text).dump('errors')
+    j = vlib.Job()
+    plan = []
+    for k in range(n):
+        a, o = rng.choice(A_MODELS), rng.choice(OTHERS)
+        ls = [rng.choice(LATER) for _ in range(rng.choice([1, 2, 3]))]
+        for tag, mid in (('s', False), ('i', True)):
+            c = j.case('il%s%d' % (tag, k), fork=True).model(a[0], a[1]).dump('errors')
+            if mid:
+                c.other(o[0], o[1])
+            for kind, text in ls:
+                later(c, kind, text)
+            c.end()
+        plan.append((a, o, ls))
+    rr = vlib.run_jobs(j)
+    for k, (a, o, ls) in enumerate(plan):
+        s_, i_ = rr['ils%d' % k], rr['ili%d' % k]
+        rec = lambda c: (c['status'], [strip(cmd[2]) for cmd in c['cmds'] if cmd[0] != 'OTHER'])
+        if rec(s_) != rec(i_):
+            fa, fb = sum(rec(i_)[1], []), sum(rec(s_)[1], [])
+            first = next(((x, y) for x, y in zip(fa, fb) if x != y), (rec(i_)[0] + ' / %d lines' % len(fa), rec(s_)[0] + ' / %d lines' % len(fb)))
+            run.fail('calls on a document differ when another model was parsed into another document in between: %r vs %r' % (first[0][:160], first[1][:160]),
+                     dict(model=a[1], other_model=o[1], later_calls=ls, with_other=rec(i_)[1][-2:], alone=rec(s_)[1][-2:]), shape='history-dependence:interleaved-documents')
+    return len(plan)
+
+
 def strip(lines):
     """observable record of a call: everything but absolute positions"""
     out = []
@@ -229,7 +268,8 @@ def check(run):
                          shape='position-wrap' if wrapped else 'history-dependence:' + pool[k][0].split(':')[0])
             elif len(samples) < 3 and pos > 0:
                 samples.append(dict(history=[pool[x][0] for x in hist[:pos + 1]], seed=seed, call=pool[k][0], status=got[0]))
-    run.cov.update(evaluations=ncalls + npairs, distinct_nontrivial=len(histories), traces_validated_against_impl=ncalls,
+    nint = interleaved(run, rng, 60 if thorough else 20)
+    run.cov.update(interleaved_documents=nint, evaluations=ncalls + npairs + nint, distinct_nontrivial=len(histories), traces_validated_against_impl=ncalls,
                    rule='every ordered pair of calls and seeded random histories of 2-8 calls drawn from %d calls (XML buffers incl. ones that end in std::logic_error / NotSupportedException / unterminated comments, XTA new and old syntax, expression, '
                         'query and per-block parses), in one process, optionally with the global position counter carried to values around 2^31 and near 2^32; each call\'s record (return value or exception, messages with path/line/'
                         'column, document dump, supported methods) must equal the record of the same call alone in a fresh process; absolute positions are erased' % len(pool),
